@@ -1,7 +1,7 @@
 (** C04 - Key commands put exactly the intended press/release events on the wire. *)
 From Coq Require Import ZArith List Bool Lia String.
 From VD Require Import Base.Bytes Base.Text Gen.Tables Model.ClientMsgs Model.Keys Model.ClientOps Spec.C2S Spec.X11.
-From VD Require Import Proofs.C2SP Proofs.KeysP Proofs.ClientOpsP Gen.Exprs Proofs.ExprTie.
+From VD Require Import Proofs.C2SP Proofs.KeysP Proofs.ClientOpsP Gen.Exprs Proofs.ExprTie Gen.DecodeKey Proofs.DecodeKeyTie.
 Import ListNotations.
 Open Scope Z_scope.
 
@@ -76,3 +76,10 @@ Theorem C04_key_passes_are_source : forall fc up key,
   keyUp fc up key = (match decode_key fc up key with None => None | Some keys => run_passes gen_keyUp_passes keys end).
 Proof. exact key_passes_are_source. Qed.
 Print Assumptions C04_key_passes_are_source.
+
+(** The key decoding of the model is the source's own: [gen_decode_key] is regenerated from the text of
+    VNCDoToolClient._decodeKey on every run (gen/server.py: the forced-caps wrap with its `"shift-%c" % key`, the
+    single-character test, the split at '-', `KEYMAP.get(k) or ord(k)` per name) and equals the model for every key. *)
+Theorem C04_decode_key_is_source : forall fc up key, gen_decode_key fc up key = decode_key fc up key.
+Proof. exact decode_key_is_source. Qed.
+Print Assumptions C04_decode_key_is_source.
